@@ -17,11 +17,7 @@ _HDR_TYPES = {'npfloat': np.float64, 'npint32': np.int32, 'npint64': np.int64, '
               'npstr': np.str_}
 
 
-# strings built from the vocabulary of the format itself, all within what the format can express (no double quote, no
-# leading '{'; the array-element pool additionally drops everything holding a '}')
-FORMAT_WORDS = ['typedef', 'enum', 'struct', 'typedef struct', 'typedef enum', 'char', 'int', ';', 'x;', '};', '}', 'a}', 'x{',
-                'a{b}', 'a{{}}', ';;{{{}}', 'x{{{}}', 'a{ {{}}', 'b{{ }}', 'q{}', 'q{ }', 'T;', 'MYSTRUCT', 'symbols', 'a {{}} b',
-                '[3]', 'x[2]', '<3>', '\\{', 'end\\ x', '0x10', '1e', 'nan', '-', '+', '# typedef struct {', 'enum {A} T;']
+FORMAT_WORDS = M.FORMAT_WORDS
 
 
 def _hdr_text(v, vt):
